@@ -429,6 +429,11 @@ def gen_kzg():
             if first is None and c == 5: first = (com, proof, z, c, inp)
             # wrong claimed value
             emit(10, forks, vh(com) + b32(z) + b32((c + 1) % LR) + com + proof, ERR, "kzg wrong y")
+        # non-canonical field elements are rejected for every commitment, the point at infinity included
+        for badz in (LR, LR + 1, 2**256 - 1):
+            emit(10, forks, vh(com) + b32(badz) + b32(c) + com + proof, ERR, "kzg c=%d z non-canonical" % (c % 1000))
+        if LR + c < 2**256:
+            emit(10, forks, vh(com) + b32(zs[1]) + b32(LR + c) + com + proof, ERR, "kzg c=%d y non-canonical" % (c % 1000))
     com, proof, z, c, good = first
     emit(10, forks, b"\x02" + good[1:], ERR, "kzg wrong hash version")
     emit(10, forks, good[:31] + bytes([good[31] ^ 1]) + good[32:], ERR, "kzg wrong versioned hash")
